@@ -93,6 +93,7 @@ class Lemma(object):
         self.uses = []
         self.hints = []
         self.generalize = []
+        self.uses_at = []
         self.measure = None     # (param, expr): the induction variable is this function of the other parameters
         self.file = path
         self.lineno = node.lineno
@@ -117,7 +118,11 @@ class Lemma(object):
             elif k == 'props':
                 self.props = [a.value for a in call.args]
             elif k == 'uses':
-                self.uses.extend(a.id for a in call.args)
+                for a in call.args:
+                    if isinstance(a, ast.Name):
+                        self.uses.append(a.id)
+                    else:
+                        self.uses_at.append(a)
             else:
                 raise SyntaxError('%s:%d: unknown lemma clause %s' % (path, st.lineno, k))
 
